@@ -23,6 +23,7 @@ def child_main(argv):
     import atheris
     with atheris.instrument_imports(include=["metapype"]):
         mod = importlib.import_module("props." + prop.lower())
+        runner.import_library()
     from hypothesis import HealthCheck, given, settings
     from metapype.model.node import Node
     strategy, body = mod.fuzz_targets()[target]
